@@ -22,9 +22,53 @@ def _codec_fail_to_result(res, fails, prop_tag):
         # failures tagged with the other property's id belong to that property's check
 
 
+def four_byte_cases():
+    """packets whose remaining length needs the fourth length byte (>= 2 097 152), named so that a replay can rebuild them:
+    PUBLISH on both sides of the boundary with bytes and text payloads, SUBSCRIBE / UNSUBSCRIBE naming 33 topics of 65 535 bytes"""
+    out = {}
+    for total in (2097151, 2097152, 2097153, 2097152 + 70000):
+        for qos in (0, 1, 2):
+            overhead = 2 + 1 + (2 if qos else 0)
+            out['publish-b-%d-q%d' % (total, qos)] = ('publish', dict(topic='t', payload=('b', bytes((i * 7) % 251 for i in range(total - overhead))), qos=qos, dup=0, retain=0,
+                                                                  msgId=5 if qos else None))
+    out['publish-s'] = ('publish', dict(topic='t/ñ', payload=('s', 'añ€' * 400000), qos=1, dup=0, retain=1, msgId=65535))
+    long = ['%02d' % i + 'x' * 65533 for i in range(33)]
+    out['subscribe-33'] = ('subscribe', dict(msgId=9, topics=[(t, i % 3) for i, t in enumerate(long)]))
+    out['unsubscribe-33'] = ('unsubscribe', dict(msgId=9, topics=long))
+    return out
+
+
+def _four_byte_round_trip(res, only=None):
+    """real code only (the model's byte lists make multi-megabyte packets slow): decode(encode(x)) = x across the 3/4-byte boundary of the
+    remaining-length field, in every tier"""
+    n = 0
+    for name, (kind, f) in four_byte_cases().items():
+        if only is not None and name != only:
+            continue
+        n += 1
+        try:
+            r = cc.real_encode(kind, f)
+            if r[0] != 'ok':
+                res.violations.append(dict(what='C01: %s with a four-byte remaining length is refused by encode(): %s' % (name, str(r[1])[:80]),
+                                           signature='C01 four-byte', case=dict(kind='four-byte', fields=dict(name=name))))
+                continue
+            d = cc.real_decode_canon(kind, r[1]); e = cc.expected_decode_canon(kind, f)
+        except Exception as ex:
+            d, e = 'raised %s' % type(ex).__name__, None
+        if d != e:
+            res.violations.append(dict(what='C01: decode(encode(x)) != x for %s (remaining length >= 2097151): decoded %s, expected %s' % (name, str(d)[:120], str(e)[:120]),
+                                       signature='C01 four-byte', case=dict(kind='four-byte', fields=dict(name=name))))
+    return n
+
+
 def c01(ctx):
     res = Result()
     rng = cc.RNG(ctx['seed'])
+    if ctx.get('replay') and ctx['replay']['case'].get('kind') == 'four-byte':
+        n = _four_byte_round_trip(res, only=ctx['replay']['case']['fields']['name'])
+        res.evaluations = res.programs = n
+        res.rule = 'replay of one four-byte remaining-length round trip'
+        return res
     if ctx.get('replay'):
         case = ctx['replay']['case']
         cases = [(case['kind'], _unjson(case['fields']))]
@@ -72,10 +116,13 @@ def c01(ctx):
                     real = 'raised ' + type(ex).__name__
                 if o != 'ok ' + real:
                     res.divergences.append(dict(what='correspondence: encodeLength(%d): real %s model %s' % (v, real, o)))
-    res.evaluations = stats['cases'] + n16
-    res.programs = stats['cases']
+    n4 = 0 if ctx.get('replay') else _four_byte_round_trip(res)
+    res.evaluations = stats['cases'] + n16 + n4
+    res.programs = stats['cases'] + n4
     for (k, f) in cases:
         res.distinct.add(_digest((k, cc.jsonable(f))))
+    for i in range(n4):
+        res.distinct.add(_digest(('four-byte', i)))
     for c in cases[:2] + cases[-1:]:
         res.sample(dict(kind=c[0], fields=_short(c[1])))
     res.rule = ('field assignments from a boundary-biased generator over the repo\'s own packet classes (all CONNECT/PUBLISH flag '
@@ -83,7 +130,8 @@ def c01(ctx):
                 '{0,1,127,128,16383,16384,65535}, remaining lengths on both sides of 128/16384(/2097152 in thorough), topic lists 1..8, '
                 'payload as str and bytearray); each is encoded by the real class (twice, and on a fresh object), decoded by the real class, '
                 'compared with the expected fields and with the Lean model\'s bytes and fields; distinct = distinct (kind, fields); '
-                'all are non-trivial (each exercises an encoder and a decoder); plus the 16-bit codec exhaustively (65536 values)')
+                'all are non-trivial (each exercises an encoder and a decoder); plus the 16-bit codec exhaustively (65536 values); plus, real code only, '
+                'round trips of PUBLISH/SUBSCRIBE/UNSUBSCRIBE whose remaining length needs the fourth length byte (2097151..2167152, 33 topics of 65535 bytes)')
     res.extra = dict(by_kind=stats['by_kind'], remaining_length_bytes=stats['remlen_bytes'], int16_exhaustive=n16, history_independence_cases=nhist)
     res.assumptions = ['str values with lone surrogates are outside the model (they cannot be encoded; covered by the C02 table of unrepresentable inputs)']
     return res
